@@ -42,6 +42,9 @@ func RunGraph(run *report.Run, sys *explore.System, bounds []explore.Bounds, min
 	var completed *explore.Result
 	totalStates, totalTrans, totalPaths := 0, int64(0), int64(0)
 	for _, b := range bounds {
+		if !b.Deadline.IsZero() && time.Now().After(b.Deadline) && last != nil {
+			break
+		}
 		res := explore.Run(sys, b)
 		last = res
 		fmt.Printf("[%s] bounds depth=%d V=%d: states=%d transitions=%d paths=%d ctl_replays=%d cap_hit=%v wall=%.1fs violations=%d\n",
@@ -139,7 +142,7 @@ func RunGraph(run *report.Run, sys *explore.System, bounds []explore.Bounds, min
 	cov["samples"] = samples
 	cov["workers"] = runtime.NumCPU()
 	// vacuity self-check: a run in which fewer than minOutcomes outcome classes occurred did not exercise the oracle
-	if len(rep.Outcomes) < minOutcomes && len(run.Viols) == 0 {
+	if len(rep.Outcomes) < minOutcomes && len(run.Viols) == 0 && !rep.CapHit && !last.CapHit {
 		fmt.Fprintf(os.Stderr, "HARNESS ERROR: vacuous exploration for %s: only %d outcome classes %v\n", sys.ID, len(rep.Outcomes), rep.Outcomes)
 		world.CleanScratch()
 		os.Exit(2)
